@@ -662,7 +662,7 @@ func init() {
 		Rule: "per case one file-backed list (DNS: rules + hosts lines over colliding names; network: a pool mixing all index paths) and one query history of 10..30 (thorough 10..60) queries drawn with repeats from 8 distinct requests; in half of the cases the list is padded beyond the 4 KiB read block so that a rule straddles a block boundary exactly where its prefix is a valid broader rule matching a request of the history; for EVERY fault point k in 0..n and every fault kind in {RuleStorage.Close, file handle replaced by an already closed descriptor, by a directory descriptor (Seek succeeds, reads fail with EISDIR), by the read end of a closed pipe (Seek fails with ESPIPE), by an already closed descriptor of ANOTHER file that holds different matching rules at the same offsets, RuleStorage.Close followed by opening that other file four times (descriptor numbers are recycled)} the engine is rebuilt, queries before k must equal a String-backed twin, queries from k on must not panic, must return a subset of the fault-free result whose members individually match, must still return every rule materialised before k (tracked from storage.insert hook events, cross-checked with GetCacheSize), and a query repeated after the fault must still return every network and host rule it returned before it (observed at the interface); " +
 			"each case under one of four logger configurations of log/slog (default, text or JSON at debug level, above error); " +
 			"cases 2 and 3 pause 5.5 s (thorough: case 4 pauses 61 s) of real time before one fault point per fault kind; " +
-			""plus one case that materialises 9 000 (thorough 70 000) rules before each kind of fault and demands all of them afterwards; non-trivial = every (list, history) pair, each contributing 6*(n+1) fault placements; distinct by list and history length",
+			"plus one case that materialises 9 000 (thorough 70 000) rules before each kind of fault and demands all of them afterwards; non-trivial = every (list, history) pair, each contributing 6*(n+1) fault placements; distinct by list and history length",
 		Assumptions: []string{
 			"the fault-free oracle is a String-backed twin engine over the same bytes",
 			"with only a subset of rules available the selected basic rule may legitimately differ from the fault-free one; only membership and match are required",
